@@ -27,10 +27,16 @@
    guards, DESIGN.md section 7):
      ColBug     column set to 0 (not 1) after a newline
      SetPosBug  set_position does not restore location_
-     EofBug     get_position does not clear eofbit before tellg                               *)
+     EofBug     get_position does not clear eofbit before tellg
+     FailBug    (extension) a failure of the stream buffer is not noticed: a character is delivered
+
+   Extension round: the stream buffer may throw when the character at offset `failat` is requested
+   (harness kind 3).  libstdc++'s get() catches the exception, sets badbit (and failbit, nothing was
+   read) and returns eof; from then on check_bad throws.  get_char_error = get_char with the failure
+   turned into the error "EOF". *)
 EXTENDS ParseStream
 
-CONSTANTS ColBug, SetPosBug, EofBug
+CONSTANTS ColBug, SetPosBug, EofBug, FailBug
 
 VARIABLES is,      \* [gpos, eof, fail, bad, line, col]
           isaved,  \* positions handed out by the implementation: set of [off, line, col]
@@ -43,6 +49,7 @@ Sentry(i) == IF Good(i) THEN i ELSE [i EXCEPT !.fail = TRUE]
 (* std::basic_istream::get() -> [i, c]   (c = -1: traits::eof()) *)
 StdGet(t, i) ==
   IF ~Good(i) THEN [i |-> [i EXCEPT !.fail = TRUE], c |-> -1]
+  ELSE IF i.gpos = i.failat /\ ~FailBug THEN [i |-> [i EXCEPT !.bad = TRUE, !.fail = TRUE], c |-> -1]
   ELSE IF i.gpos = Len(t) THEN [i |-> [i EXCEPT !.eof = TRUE, !.fail = TRUE], c |-> -1]
   ELSE [i |-> [i EXCEPT !.gpos = @ + 1], c |-> t[i.gpos + 1]]
 StdClear(i) == [i EXCEPT !.eof = FALSE, !.fail = FALSE, !.bad = FALSE]
@@ -90,7 +97,7 @@ ImplCharParser(t, i, accepts(_)) ==
 (* one implementation step for call c (same calls as the abstract machine; set_position takes
    the implementation's own saved position with that offset) -> [i, ev, saved] *)
 IEff(t, i, sv, c) ==
-  CASE c[1] = 1 -> LET g == ImplGetChar(t, i) IN [i |-> g.i, ev |-> <<1, g.r>>, saved |-> sv]
+  CASE c[1] \in {1, 9} -> LET g == ImplGetChar(t, i) IN [i |-> g.i, ev |-> <<c[1], g.r>>, saved |-> sv]
     [] c[1] = 2 -> LET g == ImplGetPosition(i) IN
                    IF g.ok THEN [i |-> g.i, ev |-> <<2, 0, g.p.off, g.p.line, g.p.col>>, saved |-> sv \cup {g.p}]
                    ELSE [i |-> g.i, ev |-> <<2, -2>>, saved |-> sv]
@@ -105,7 +112,7 @@ IEff(t, i, sv, c) ==
 
 IInit ==
   /\ AInit
-  /\ is = [gpos |-> 0, eof |-> FALSE, fail |-> FALSE, bad |-> FALSE, line |-> 1, col |-> 1]
+  /\ is = [gpos |-> 0, eof |-> FALSE, fail |-> FALSE, bad |-> FALSE, line |-> 1, col |-> 1, failat |-> st.failat]
   /\ isaved = {}
   /\ retok = TRUE
 
@@ -126,11 +133,12 @@ IStep(c) ==
 (* one named action per call, so that TLC's coverage report shows that each of them is taken *)
 IGetChar == Len(hist) >= 0 /\ IStep(<<1>>)
 IGetPosition == Len(hist) >= 0 /\ IStep(<<2>>)
+IGetCharError == WithFailAt /\ IStep(<<9>>)   \* only in the extension configurations
 ISetPosition == \E o \in st.saved : IStep(<<3, o>>)
 ISetBad == ~st.bad /\ IStep(<<4>>)
 ILiteral == Len(hist) >= 0 /\ \E c \in LitChars : IStep(<<5, c>>)
 ICharSet == Len(hist) >= 0 /\ \E cs \in CSets : IStep(<<6, cs>>)
-INext == IGetChar \/ IGetPosition \/ ISetPosition \/ ISetBad \/ ILiteral \/ ICharSet
+INext == IGetChar \/ IGetCharError \/ IGetPosition \/ ISetPosition \/ ISetBad \/ ILiteral \/ ICharSet
 ISpec == IInit /\ [][INext]_ivars
 IView == <<text, st, is, isaved, retok>>
 IViewDepth == <<text, st, is, isaved, retok, Len(hist)>>
@@ -165,12 +173,12 @@ ImplFuture(t, i, fuel) ==
      ELSE IF gc.r < 0 THEN <<[pos |-> gp.p, ch |-> gc.r]>>
      ELSE <<[pos |-> gp.p, ch |-> gc.r]>> \o ImplFuture(t, gc.i, fuel - 1)
 AbsFutureSeq(t, o) == [k \in 1..(Len(t) - o + 1) |-> Future(t, o)[k - 1]]
-FutureRefines == ~st.bad => ImplFuture(text, is, Len(text) + 1) = AbsFutureSeq(text, st.off)
+FutureRefines == (~st.bad /\ st.failat < 0) => ImplFuture(text, is, Len(text) + 1) = AbsFutureSeq(text, st.off)
 
 ITypeOK ==
   /\ ATypeOK
   /\ is.gpos \in 0..Len(text)
   /\ FlagInv
 
-EmitIScripts == PrintT("SCRIPT " \o ToJson([text |-> text, hist |-> hist]))
+EmitIScripts == PrintT("SCRIPT " \o ToJson([text |-> text, failat |-> st.failat, hist |-> hist]))
 =============================================================================
